@@ -1,6 +1,6 @@
 (** C10 — changing representation loses nothing: the obligations, written out in full. *)
 From Coq Require Import List NArith ZArith String.
-From SK Require Import lib.LGraph lib.StrJoin model.C10_Model model.C10_Text model.C10_Rxn proof.C10_Rxn proof.C10_ImpH proof.C10_HRoundIts proof.C10_GmlEHFull proof.C10_Text proof.C10_Proof proof.C10_Hydrogen proof.C10_Routes proof.C10_GmlWrite proof.C10_HRound proof.C10_Routes2 proof.C10_Reindex proof.C10_MolGraph proof.C10_Smart proof.C10_GmlEH proof.C10_Select proof.C10_MolOk proof.C10_Full proof.C10_Attrs proof.C10_Light proof.C10_ReindexEH.
+From SK Require Import lib.LGraph lib.StrJoin model.C10_Model model.C10_Text model.C10_Rxn proof.C10_Rxn proof.C10_ImpH proof.C10_HRoundIts proof.C10_GmlEHFull proof.C10_ReindexEHFull proof.C10_Text proof.C10_Proof proof.C10_Hydrogen proof.C10_Routes proof.C10_GmlWrite proof.C10_HRound proof.C10_Routes2 proof.C10_Reindex proof.C10_MolGraph proof.C10_Smart proof.C10_GmlEH proof.C10_Select proof.C10_MolOk proof.C10_Full proof.C10_Attrs proof.C10_Light proof.C10_ReindexEH.
 Import ListNotations.
 Local Open Scope Z_scope.
 
@@ -563,3 +563,34 @@ Theorem C10_three_routes_reindex :
     reads_c_by fC (gml_to_its (its_to_gml (rsmi_to_its r p eo true false) true true explicit_h)).
 Proof. exact three_routes_reindex. Qed.
 Print Assumptions C10_three_routes_reindex.
+
+(** THE LAST CELL of the option matrix of its_to_gml: reindex=True together with explicit_hydrogen=True on an ITS with implicit
+    hydrogens.  The relabelling map covers the old ids (old id -> position from 1); the hydrogens h_to_explicit added keep their
+    ids (max id + 1 ...).  For every [its_ok] ITS whose node ids are >= 1 (atom maps are) the rule reads back as
+    E = normalize_edge_orders (h_to_explicit c) renumbered by f = that map (the identity on the new hydrogens): f is injective
+    on the atoms of E, the graph read back has exactly the atoms f n, at f n the element and both charges of n, and between
+    f u and f v exactly the bond dictionary of (u, v). *)
+Theorem C10_gml_roundtrip_reindex_explicit_h_full :
+  forall c : gr, its_ok c = true -> forallb (fun n => (1 <=? n)%N) (node_ids c) = true ->
+    let E := normalize_edge_orders (h_to_explicit c None false) in
+    let f := mapget (enum_from 1%N (node_ids c)) in
+    let I' := gml_to_its (its_to_gml c false true true) in
+    (forall a b, In a (node_ids E) -> In b (node_ids E) -> f a = f b -> a = b) /\
+    (forall k, has_node I' k = true <-> exists n, In n (node_ids E) /\ k = f n) /\
+    (forall n a, label E n = Some a ->
+       label I' (f n) = Some (gml_node (f n) (tg_el (tG_of a)) (tg_ch (tG_of a)) (tg_ch (tH_of a)))) /\
+    (forall u v, In u (node_ids E) -> In v (node_ids E) -> adj I' (f u) (f v) = adj E u v).
+Proof. exact gml_roundtrip_reindex_eh_full. Qed.
+Print Assumptions C10_gml_roundtrip_reindex_explicit_h_full.
+
+(** ... and the hypothesis on the ids cannot be dropped (OBSERVATION, outside the property's quantifier — corpus reactions and
+    their renumberings have ids >= 1): with 0-based node ids the first new hydrogen id equals the new id of the last atom,
+    relabel_nodes merges the two nodes and an atom is lost; without reindex the same export is fine.  The witness is replayed on
+    the implementation by the correspondence (corpus/regress/C10/reindex_eh_id0.json). *)
+Theorem C10_reindex_explicit_h_needs_positive_ids :
+  exists c : gr, its_ok c = true /\ forallb (fun n => (1 <=? n)%N) (node_ids c) = false /\
+    List.length (gnodes (normalize_edge_orders (h_to_explicit c None false))) = 3%nat /\
+    List.length (gnodes (gml_to_its (its_to_gml c false false true))) = 3%nat /\
+    List.length (gnodes (gml_to_its (its_to_gml c false true true))) = 2%nat.
+Proof. exact reindex_eh_needs_positive_ids. Qed.
+Print Assumptions C10_reindex_explicit_h_needs_positive_ids.
